@@ -61,15 +61,18 @@ theorem exists_pairs (sub : List PyVal) (h : ∀ x ∈ sub, IsPair x) :
     exact ⟨(v, .tuple q) :: ps, rfl⟩
 
 theorem truthy_of_ofPy (doc : PyVal) (d : DataV) (h : DataV.ofPy doc = .ok d) : PyVal.truthy doc = true := by
-  unfold DataV.ofPy at h
-  split at h
-  · split at h
+  cases doc with
+  | list xs =>
+    rw [DataV.ofPy_list] at h
+    split at h
     · cases h
     · rename_i hne; simpa [PyVal.truthy] using hne
-  · split at h
+  | dict kvs =>
+    rw [DataV.ofPy_dict] at h
+    split at h
     · cases h
     · rename_i hne; simpa [PyVal.truthy] using hne
-  · cases h
+  | _ => cases h
 
 /-- a rule of the domain tested on a non-empty document raises nothing but the pseudo-outcome -/
 theorem ruleTestOn_err (r : RuleM) (doc : PyVal) (d : DataV)
@@ -101,7 +104,7 @@ theorem ruleTestOn_err (r : RuleM) (doc : PyVal) (d : DataV)
       have hd : DataV.ofPy (.list (pairs.map (fun vp => PyVal.tuple [vp.1, vp.2]))) = .ok (pairD pairs) := by
         cases pairs with
         | nil => exact absurd rfl hpne
-        | cons x xs => simp [DataV.ofPy, pairD]
+        | cons x xs => simp [DataV.ofPy_list, pairD]
       simp only [hd, kindCheck_valueKind _ _ hv, filterAux_pairs _ pairs hv] at h
       cases hf : filterAux (r.cond.resolve (some doc)) (plainD pairs) false with
       | error e' =>
